@@ -296,6 +296,12 @@ func buildC11(e *engine, p *rt.Package) {
 					if ct != "" {
 						hdr.Set("Content-Type", ct)
 					}
+					if !cutBody && rapid.IntRange(0, 3).Draw(t, "unknown_length") == 0 {
+						// streamed: no Content-Length, the server learns the length by reading
+						hdr[unknownLengthMarker] = []string{"1"}
+						res.class("transfer:chunked")
+						desc += " (chunked)"
+					}
 					srv.reset(func(string, string, proto.Message) (proto.Message, error) { return m.NewResp(), nil })
 					start := time.Now()
 					rec, panicked := srv.serveBody(info.Verb, target, hdr, body, cutBody)
